@@ -28,8 +28,9 @@ RULE = (
     '-99999, -9999999, -8888.8, -999.9, 9999999) and adversarial (>= 8 '
     'significant digits: -99999999, -9999.9999, ...) sets as int or float, '
     'random masks (none / some / all), 0-6 single-line header attributes '
-    '(ICARTT keywords and neutral names, text values with : , ; = or plain '
-    'numbers), optional '
+    '(ICARTT keywords and neutral names, text values with : , ; =, empty, '
+    'blank-only or with leading/trailing blanks, or plain numbers), '
+    'optional '
     'PI/ORG/... lines, WDATE present or not, INDEPENDENT_VARIABLE_DEFINITION '
     '"name, unit" present or not; written through file.save(format='
     '"ffi1001") or ncf2ffi1001 directly.  Unmasked values never print like '
@@ -81,6 +82,10 @@ ATTRVALS = ['N/A', 'NASA DC8', 'see ftp://ftp-air.larc.nasa.gov/pub/x',
             'Units are pptv.', 'R0', '+/- 32% at two sigma', 'a=1, b=2',
             '2004 06 26', 'Final data: use with care: ok', '1', 'x', 3, 2.5,
             -9999]
+# header attributes without text, and text with blanks at the ends (still
+# single-line): a keyword may be present with nothing to say
+ATTRVALS_BLANK = ['', '', ' ', '   ', '\t', ' leading blank', 'trailing  ',
+                  '  both ends  ', ' : ', 'N/A ']
 HEAD = ['PI_NAME', 'ORGANIZATION_NAME', 'SOURCE_DESCRIPTION', 'MISSION_NAME',
         'VOLUME_INFO', 'TIME_INTERVAL']
 HEADVALS = {'PI_NAME': ['Brune, William', 'Doe, J.'],
@@ -165,7 +170,9 @@ def cases(draw, tier='quick'):
         raise AssertionError('independent variable collides with a code')
     nattr = draw(st.sampled_from([0, 1, 1, 2, 3, 4, 6]))
     akeys = list(draw(st.permutations(ATTRKEYS)))[:nattr]
-    attrs = [[k, draw(st.sampled_from(ATTRVALS))] for k in akeys]
+    attrs = [[k, draw(st.sampled_from(
+        ATTRVALS_BLANK if draw(st.sampled_from([False, False, True]))
+        else ATTRVALS))] for k in akeys]
     head = {}
     for h in HEAD:
         if draw(st.booleans()):
@@ -416,6 +423,13 @@ def check_case(spec):
     r.label('ndep=%d' % len(deps), 'route:' + spec['route'])
     r.label('nrec=1' if n == 1 else 'nrec=2-5' if n <= 5 else 'nrec>5')
     r.label('attrs=%d' % len(spec['attrs']))
+    texts = [v for k, v in spec['attrs'] if isinstance(v, str)]
+    if any(v.strip() == '' for v in texts):
+        r.label('attr-empty-or-blank')
+    if any(v.strip() != '' and v != v.strip() for v in texts):
+        r.label('attr-blank-edges')
+    if any(not isinstance(v, str) for k, v in spec['attrs']):
+        r.label('attr-numeric')
     if nmasked:
         r.label('masked-cells')
     if any(all(d['mask']) for d in deps):
